@@ -5,6 +5,8 @@ int eng_gram_main(int argc, char **argv);
 int eng_def_main(int argc, char **argv);
 int eng_hist_main(int argc, char **argv);
 int eng_txt_main(int argc, char **argv);
+int eng_fault_main(int argc, char **argv);
+int eng_scale_main(int argc, char **argv);
 int main(int argc, char **argv) {
   if (argc < 2) { fprintf(stderr, "usage: vh <engine> [options]\n"); return 2; }
   std::string e = argv[1];
@@ -12,6 +14,8 @@ int main(int argc, char **argv) {
   if (e == "def") return eng_def_main(argc, argv);
   if (e == "hist") return eng_hist_main(argc, argv);
   if (e == "txt") return eng_txt_main(argc, argv);
+  if (e == "fault") return eng_fault_main(argc, argv);
+  if (e == "scale") return eng_scale_main(argc, argv);
   fprintf(stderr, "unknown engine %s\n", argv[1]);
   return 2;
 }
